@@ -1,4 +1,4 @@
-import Mimium.Proofs.CstShapeParams
+import Mimium.Proofs.CstShapeTypes
 /-!
 # Every tree the ported parser builds without an error is kept by the printer (on the covered node kinds)
 -/
@@ -10,7 +10,7 @@ open Mimium.CstPrint (Ctx)
 variable {E : Env} {c : Ctx} {rec : Tag → St → St}
 
 /-- every body satisfies the specification of its function, given those of the functions it calls -/
-theorem vc_all (t : Tag) (s : St) (hW : W E c s) (h : Em E c rec (R E c) (body t) s) : Rs E c t s (exec E rec (body t) s) := by
+theorem vc_all (t : Tag) (s : St) (hW : W E c s) (hpre : Pre E t s) (h : Em E c rec (R E c) (body t) s) : Rs E c t s (exec E rec (body t) s) := by
   cases t
   case programLoop => trivial
   case statement => exact em_node_app _ _ _ h
@@ -52,18 +52,18 @@ theorem vc_all (t : Tag) (s : St) (hW : W E c s) (h : Em E c rec (R E c) (body t
   case argList => exact em_node_app _ _ _ h
   case argLoop => exact vc_argLoop s h
   case typeAnnotation => exact em_node_app _ _ _ h
-  case type_ => trivial
-  case typeUnion => trivial
+  case type_ => exact vc_type_ s h
+  case typeUnion => exact vc_typeUnion s h
   case typeUnionLoop => trivial
-  case typePrimary => trivial
+  case typePrimary => exact vc_typePrimary s hW h
   case typeIdentLoop => trivial
-  case typeTupleOrParen => trivial
-  case typeTupleLoop => trivial
+  case typeTupleOrParen => exact vc_typeTupleOrParen s hpre h
+  case typeTupleLoop => exact vc_typeTupleLoop s h
   case typeRecord => exact em_node_app _ _ _ h
-  case typeRecordLoop => trivial
+  case typeRecordLoop => exact vc_typeRecordLoop s h
   case primary => exact vc_primary s h
   case lambdaExpr => exact em_node_app _ _ _ h
-  case lambdaParamLoop => trivial
+  case lambdaParamLoop => exact vc_lambdaParamLoop s hW h
   case tupleExpr => exact em_node_app _ _ _ h
   case tupleExprLoop => exact vc_tupleExprLoop s h
   case recordExpr => exact em_node_app _ _ _ h
@@ -87,7 +87,7 @@ theorem vc_all (t : Tag) (s : St) (hW : W E c s) (h : Em E c rec (R E c) (body t
   case arrayLoop => exact vc_arrayLoop s h
 
 /-- … and the obligations of its nodes and calls hold -/
-theorem nok_all (t : Tag) (s : St) (hW : W E c s) (hpre : Pre t s) : NOK (E := E) (c := c) (rec := rec) (body t) s := by
+theorem nok_all (t : Tag) (s : St) (hW : W E c s) (hpre : Pre E t s) : NOK (E := E) (c := c) (rec := rec) (body t) s := by
   cases t
   case programLoop => exact nok_triv _ _ (by decide)
   case statement => exact nok_statement s
@@ -129,17 +129,17 @@ theorem nok_all (t : Tag) (s : St) (hW : W E c s) (hpre : Pre t s) : NOK (E := E
   case argList => exact nok_argList s
   case argLoop => exact nok_triv _ _ (by decide)
   case typeAnnotation => exact nok_triv _ _ (by decide)
-  case type_ => exact nok_triv _ _ (by decide)
+  case type_ => exact nok_type_ s
   case typeUnion => exact nok_triv _ _ (by decide)
   case typeUnionLoop => exact nok_triv _ _ (by decide)
-  case typePrimary => exact nok_triv _ _ (by decide)
+  case typePrimary => exact nok_typePrimary s
   case typeIdentLoop => exact nok_triv _ _ (by decide)
-  case typeTupleOrParen => exact nok_triv _ _ (by decide)
+  case typeTupleOrParen => exact nok_typeTupleOrParen s
   case typeTupleLoop => exact nok_triv _ _ (by decide)
-  case typeRecord => exact nok_triv _ _ (by decide)
+  case typeRecord => exact nok_typeRecord s
   case typeRecordLoop => exact nok_triv _ _ (by decide)
   case primary => exact nok_triv _ _ (by decide)
-  case lambdaExpr => exact nok_triv _ _ (by decide)
+  case lambdaExpr => exact nok_lambdaExpr s
   case lambdaParamLoop => exact nok_triv _ _ (by decide)
   case tupleExpr => exact nok_tupleExpr s
   case tupleExprLoop => exact nok_triv _ _ (by decide)
@@ -164,13 +164,13 @@ theorem nok_all (t : Tag) (s : St) (hW : W E c s) (hpre : Pre t s) : NOK (E := E
   case arrayLoop => exact nok_triv _ _ (by decide)
 
 /-- the specification of every grammar function, for every fuel -/
-theorem go_R : ∀ (n : Nat) (t : Tag) (s : St), W E c s → G c cov s → Pre t s → NE s (go E n t s) →
+theorem go_R : ∀ (n : Nat) (t : Tag) (s : St), W E c s → G c cov s → Pre E t s → NE s (go E n t s) →
     (∀ a b, R E c t s { go E n t s with ra := a, rb := b }) ∧ G c cov (go E n t s)
   | 0, t, s, _, _, _, hne => by simp [NE, go] at hne
   | n + 1, t, s, hW, hG, hpre, hne => by
-    have hs := em_sound cov Pre (go E n) (R E c) (go_good hW.env n) (go_basic n) (go_krel n) (go_R n) (body t) false s
+    have hs := em_sound cov (Pre E) (go E n) (R E c) (go_good hW.env n) (go_basic n) (go_krel n) (go_R n) (body t) false s
       (all_bodies_guarded t) (fun h => by cases h) (nok_all t s hW hpre) hW hG hne
-    exact ⟨fun a b => R_regs t s _ a b ⟨vc_all t s hW hs.1, fun he => he.mono (go_mono E (n + 1) t s).cur⟩, hs.2⟩
+    exact ⟨fun a b => R_regs t s _ a b ⟨vc_all t s hW hpre hs.1, fun he => he.mono (go_mono E (n + 1) t s).cur⟩, hs.2⟩
 
 /-- `Parser::parse`: if no error is recorded and no fuel runs out, the root is kept on the covered kinds when it is strict -/
 theorem parse_keeps (kinds : Array Kind) (fuel : Nat) (hE : Env.Ok E) (hk : KindsOk E (init kinds)) (hc : c.kinds = kinds)
